@@ -1,8 +1,8 @@
 (* C09 - Inline formatting: greedy line breaking inside the available width. Property theorems only
    (models: model/C09*.v, proofs: proofs/C09_*.v). *)
 From Coq Require Import String ZArith QArith List Bool.
-Require Import WV.model.C09Line WV.model.C09Spec WV.model.C09Judge WV.model.C09Align.
-Require Import WV.proofs.C09_pango WV.proofs.C09_greedy WV.proofs.C09_sfl WV.proofs.C09_align.
+Require Import WV.model.C09Line WV.model.C09Spec WV.model.C09Judge WV.model.C09Align WV.model.C09Float.
+Require Import WV.proofs.C09_pango WV.proofs.C09_greedy WV.proofs.C09_sfl WV.proofs.C09_align WV.proofs.C09_float.
 Import ListNotations.
 Open Scope Q_scope.
 
@@ -223,6 +223,20 @@ Theorem C09_justify_keeps_boxes_adjacent js l x a :
 Proof. exact (ltr_go_adjacent js l x a). Qed.
 Print Assumptions C09_justify_keeps_boxes_adjacent.
 
+(* atomic inline-level boxes with descendants (inline-block, inline-table, inline-flex): add_word_spacing translates
+   the box, and Box.translate moves the whole subtree: every box laid out inside an atomic box of the line is still
+   inside it after justification, at every depth (well_nested: model/C09Align.v) *)
+Theorem C09_justify_moves_descendants_with_their_box line extra :
+  well_nested line -> well_nested (justify_line line extra).
+Proof. exact (justify_well_nested line extra). Qed.
+Print Assumptions C09_justify_moves_descendants_with_their_box.
+
+Theorem C09_add_word_spacing_moves_descendants x w ins js adv :
+  fst (add_word_spacing (A x w ins) js adv) = A (x + adv) w (map (shift adv) ins) /\
+  map (fun d => box_x d - (x + adv)) (map (shift adv) ins) = map (fun d => box_x d + adv - (x + adv)) ins.
+Proof. exact (aws_atomic_moves_descendants x w ins js adv). Qed.
+Print Assumptions C09_add_word_spacing_moves_descendants.
+
 (* ---- 3. stacking: iter_line_boxes / line_box_verticality (baseline-aligned children) ---- *)
 
 (* consecutive lines are stacked without gap or overlap: y_{i+1} = y_i + h_i *)
@@ -243,3 +257,41 @@ Theorem C09_uniform_lines strut children lh n y i yi hi :
   (nth_error (stack y (repeat lh n)) i = Some (yi, hi) -> yi == y + inject_Z (Z.of_nat i) * lh /\ hi = lh).
 Proof. exact (uniform_lines strut children lh n y i yi hi). Qed.
 Print Assumptions C09_uniform_lines.
+
+(* ---- 4. lines next to floats: avoid_collisions on a line box (model/C09Float.v) ---- *)
+
+(* the three-clause vertical test of avoid_collisions is the intersection of the half-open extents [y, y + h) of the
+   line box and of the float's margin box (CSS 2.1 9.5.1), for boxes and floats of positive height *)
+Theorem C09_float_collision_is_interval_overlap y bh s :
+  0 < bh -> 0 < s_mh s -> (collides y bh s = true <-> s_y s < y + bh /\ y < s_y s + s_mh s).
+Proof. exact (collides_iff_overlaps y bh s). Qed.
+Print Assumptions C09_float_collision_is_interval_overlap.
+
+(* exact boundaries: a float whose top edge is the line's bottom edge does not shorten the line, nor does one whose
+   bottom edge is the line's top edge *)
+Theorem C09_float_starting_at_line_bottom_does_not_collide y bh s :
+  0 < bh -> 0 < s_mh s -> s_y s == y + bh -> collides y bh s = false.
+Proof. exact (float_below_line_boundary y bh s). Qed.
+Print Assumptions C09_float_starting_at_line_bottom_does_not_collide.
+Theorem C09_float_ending_at_line_top_does_not_collide y bh s :
+  0 < bh -> 0 < s_mh s -> s_y s + s_mh s == y -> collides y bh s = false.
+Proof. exact (float_above_line_boundary y bh s). Qed.
+Print Assumptions C09_float_ending_at_line_top_does_not_collide.
+
+(* the position and the interval returned for a line box: never higher than asked; the interval is exactly what the
+   floats sharing vertical extent with the box at the RETURNED position leave of the containing block, and the box
+   starts at its left edge (right edge in rtl) *)
+Theorem C09_avoid_collisions_interval fuel shapes cbx cbw rtl bw bh y x y' av :
+  0 < bh -> positive shapes ->
+  avoid fuel shapes cbx cbw rtl bw bh y = Placed x y' av ->
+  y <= y' /\
+  let '(l, r) := spec_interval shapes cbx cbw y' bh in
+  av = r - l /\ x = (if rtl then r else l).
+Proof. exact (avoid_interval_spec fuel shapes cbx cbw rtl bw bh y x y' av). Qed.
+Print Assumptions C09_avoid_collisions_interval.
+
+(* the `while True` loop terminates: it goes down at most once per float *)
+Theorem C09_avoid_collisions_terminates shapes cbx cbw rtl bw bh y :
+  avoid (S (length shapes)) shapes cbx cbw rtl bw bh y <> NoFuel.
+Proof. exact (avoid_fuel_enough shapes cbx cbw rtl bw bh y). Qed.
+Print Assumptions C09_avoid_collisions_terminates.
